@@ -97,6 +97,9 @@ def req_line(r):
     raise ValueError(op)
 
 
+CLASS_ATTRS = (1, 4)
+
+
 def cip_path(path):
     segs = []
     for k, v in path:
@@ -113,6 +116,8 @@ def req_dotdict(r):
         d.read_tag = {"elements": r["n"]}
     elif op == "rf":
         d.read_frag = {"elements": r["n"], "offset": r["off"]}
+        if r.get("elide_n"):      # in-process callers may leave the count out: "the rest of the tag"
+            del d.read_frag["elements"]
     elif op == "wt":
         d.write_tag = {"type": r["ty"], "elements": r["n"], "data": [pyval(v) for v in r["vals"]]}
     elif op == "wf":
@@ -222,6 +227,11 @@ class Device:
         cpppo = self.cpppo
         obj = self.router
         try:
+            if r.get("direct"):
+                # the in-process API: a request mapping handed straight to the object (no wire form in between)
+                data = req_dotdict(r)
+                obj.request(data)
+                return hexs(data.input)
             encoded = obj.produce(req_dotdict(r))
             data = cpppo.dotdict()
             source = cpppo.chainable(encoded)
@@ -234,7 +244,7 @@ class Device:
             self.last_exc = exc
             return "X"
 
-    def dump(self):
+    def dump(self, class_level=False):
         items = []
         seen = set()
         for name, (c, i, a) in sorted(self.addrs.items(), key=lambda kv: kv[1]):
@@ -258,6 +268,19 @@ class Device:
                         items.append(f"{c}.{i}.{a}={hexs(attr.produce())}")
                     except Exception:
                         items.append(f"{c}.{i}.{a}=X")
+        # the class-level instance (0) every CIP class gets: its static attributes Revision (1) and Optional Attributes (4)
+        # (Max Instance / Num Instances depend on what the interpreter created before, see device.lookup_reset)
+        classes = []
+        for c, _i in (objs if class_level else []):
+            if c not in classes:
+                classes.append(c)
+        for c in classes:
+            for a in CLASS_ATTRS:
+                attr = self.device.lookup(c, 0, a)
+                try:
+                    items.append(f"{c}.0.{a}={hexs(attr.produce())}")
+                except Exception:
+                    items.append(f"{c}.0.{a}=X")
         return ",".join(items) if items else "-"
 
 
@@ -271,7 +294,7 @@ def run_case(case):
         outs = []
         for r in case["reqs"]:
             rep = dev.request(r)
-            outs.append(rep + "@" + dev.dump())
+            outs.append(rep + "@" + dev.dump(class_level=True))
         return ";".join(outs) if outs else "-"
     finally:
         dev.close()
